@@ -127,6 +127,20 @@ def parse_template(path):
 
                 def setter(t, where=where, nth=nth, lit=lit[0], cur=cur, how=how):
                     cur.inserts.append((where, nth, lit, t, how))
+            elif d.startswith('replace-block'):
+                rule = (d.split() + ['R?'])[1]
+                block = []
+                pending = {}
+
+                def setter(t, pending=pending):
+                    pending['from'] = t
+                cur._pending = (rule, pending)
+            elif d == 'with':
+                rule, pending = cur._pending
+                block = []
+
+                def setter(t, rule=rule, pending=pending, cur=cur):
+                    cur.replaces.append((False, rule, pending['from'], t))
             elif d.startswith('replace'):
                 head = d.split('@<')[0].split()
                 allf = 'all' in head
